@@ -407,11 +407,26 @@ type LeaseSetSpec struct {
 	Dest   IdentSpec   `json:"dest"`
 	Seed   uint64      `json:"seed"`
 	Leases []LeaseSpec `json:"leases"`
+	// EncMode: the 256-byte ElGamal field - 0 a value inside the group's range, 1 all 0xff,
+	// 2 the integer 1, 3 zero, 4 0x80 followed by zeros (values a range check may treat specially)
+	EncMode int `json:"enc_mode,omitempty"`
 }
 
 func (s LeaseSetSpec) Build() (model.LeaseSet, *model.SignKey) {
 	id, dk := s.Dest.Build()
 	ls := model.LeaseSet{Dest: id, EncKey: model.ElgPub(s.Seed)}
+	switch s.EncMode {
+	case 1:
+		ls.EncKey = bytesOf(256, 0xff)
+	case 2:
+		ls.EncKey = bytesOf(256, 0)
+		ls.EncKey[255] = 1
+	case 3:
+		ls.EncKey = bytesOf(256, 0)
+	case 4:
+		ls.EncKey = bytesOf(256, 0)
+		ls.EncKey[0] = 0x80
+	}
 	// revocation key: same type as the destination's signing key; value-valid
 	rk := model.NewSignKey(id.SigType, s.Seed^0x5e)
 	if rk != nil {
@@ -428,6 +443,24 @@ func (s LeaseSetSpec) Build() (model.LeaseSet, *model.SignKey) {
 		ls.Sig = model.Fill(model.SigLen[id.SigType], s.Seed)
 	}
 	return ls, dk
+}
+
+func bytesOf(n int, v byte) []byte {
+	b := make([]byte, n)
+	for i := range b {
+		b[i] = v
+	}
+	return b
+}
+
+// LeaseSetParseG is LeaseSetG for parse-side inputs: one in eight carries an
+// encryption-key field outside the ElGamal range (the library may refuse those).
+func LeaseSetParseG(t *rapid.T, label string) LeaseSetSpec {
+	s := LeaseSetG(t, label)
+	if rapid.IntRange(0, 7).Draw(t, label+"-encmode") == 0 {
+		s.EncMode = rapid.IntRange(1, 4).Draw(t, label+"-encm")
+	}
+	return s
 }
 
 func LeaseSetG(t *rapid.T, label string) LeaseSetSpec {
